@@ -128,6 +128,8 @@ R1 = {
         M("algo/Codec.tla", "algo/Codec_Q3N3_reach_der.cfg", expect_violation="ReachLongDer"),
         M("algo/Codec.tla", "algo/Codec_Q3N2_reach_rlp.cfg", expect_violation="ReachLongRlp"),
         M("algo/Codec.tla", "algo/Codec_Q3N3T2.cfg", tiers=T, workers=12), M("algo/Codec.tla", "algo/Codec_Q4N2.cfg", tiers=T, workers=12),
+        M("algo/Codec.tla", "algo/Codec_Q3N7_values.cfg", tiers=T, workers=8, timeout=3000),
+        M("algo/Codec.tla", "algo/Codec_Q3N7_reach2.cfg", tiers=T, expect_violation="ReachTwoLenOctets"),
         M("algo/Codec.tla", "algo/Codec_Q3N4.cfg", tiers=T, workers=12, timeout=3000), M("algo/Codec.tla", "algo/Codec_Q4N3.cfg", tiers=T, workers=12, timeout=3000),
     ],
     "C09": [
